@@ -4,7 +4,8 @@
 //! gate "via" of m_{i+1}, which is connected to gate "fin" of m_{i+2} (indices mod k, no channels).
 //!
 //! script := k  mod{k'}  inj*                     k' = 2 + k mod 3 modules; (k/3)%5 = v in 1..k': also run variant v-1
-//! mod    := catch stages bud  progs progs progs  lp(end)     catch odd: Stereotyp.on_panic_catch; 1 + stages mod 3 stages
+//! mod    := catch stages bud  progs progs progs  lp(end)     catch odd: Stereotyp.on_panic_catch; 1 + stages mod 3 stages;
+//!                                                bit 1+id of catch: task id is handed to current().join() instead of try_join()
 //! progs  := n lp(prog){n}                        start programs (by incarnation), message programs (by payload), tasks
 //! prog   := (op a b c)*                          op%10: 0 log c | 1 send_in(gate a odd ? "far" : "out", b ns, payload c)
 //!                                                | 2 schedule_in(b ns, payload c) | 3 sleep b ns (tasks) | 4 shutdown()
@@ -20,7 +21,10 @@
 //!   11 m who c 0        about to panic (c = on_panic_catch now)   19 m who b 0  set_stereotyp(on_panic_catch = b)
 //!   12 m 0 0 0 quiet      13 m id 0 0        future of task id dropped unfinished
 //!   14 now mask 0 0     after the start-up phase and after each dispatched event: is_active of all modules (bit i = module i)
-//!   15 kind m 0 0       entry of the error returned by the run (kind 0 PanicError, 1 JoinError), in order
+//!   15 kind m code 0    entry of the error returned by the run (kind 0 PanicError, 1 JoinError), in order;
+//!                       code 0 PanicError | 1 JoinError Paniced | 2 JoinError NotFinished | 3 JoinError Tokio (cancelled)
+//!   20 m id inc how     task id of incarnation inc ended: how 0 ran to completion | 1 panics now | 2 future dropped unfinished
+//!   21 m id inc must    task id of incarnation inc spawned and handed to try_join (must 0) / join (must 1)
 //!   17 0 0 0 0          separator: the whole simulation is then run a second time in the same process
 //!   18 m 0 0 0          separator: then the variant in which module m falls silent instead of panicking (k/3%5 = m+1)
 use des::net::module::Stereotyp;
@@ -75,6 +79,7 @@ type Prog = Vec<Act>;
 #[derive(Clone)]
 struct ModCfg {
     catch: bool,
+    join: u64,
     stages: u64,
     bud: u64,
     start: Vec<Prog>,
@@ -113,14 +118,16 @@ fn blobs(c: &mut Cur) -> Vec<Prog> {
 }
 
 fn dec_mod(c: &mut Cur) -> ModCfg {
-    let catch = c.next() % 2 == 1;
+    let hdr = c.next();
+    let catch = hdr % 2 == 1;
+    let join = (hdr / 2) % 8;
     let stages = 1 + c.next() % 3;
     let bud = c.next();
     let start = blobs(c);
     let msg = blobs(c);
     let tasks = blobs(c);
     let end = quads(&c.take_lp());
-    ModCfg { catch, stages, bud, start, msg, tasks, end }
+    ModCfg { catch, join, stages, bud, start, msg, tasks, end }
 }
 
 /// Send / schedule / shutdown requests draw on the module's budget.  Returns false when the
@@ -202,6 +209,7 @@ fn run_callback(m: u64, p: &[Act]) {
 struct Guard {
     m: u64,
     id: u64,
+    inc: u64,
     done: Cell<bool>,
 }
 
@@ -209,6 +217,7 @@ impl Drop for Guard {
     fn drop(&mut self) {
         if !self.done.get() && !std::thread::panicking() {
             log([13, self.m, self.id, 0, 0]);
+            log([20, self.m, self.id, self.inc, 2]);
         }
     }
 }
@@ -216,6 +225,7 @@ impl Drop for Guard {
 async fn run_task(m: u64, id: u64, inc: u64, p: Prog, guard: Guard) {
     if SILENT[m as usize].load(SeqCst) {
         guard.done.set(true);
+        log([20, m, id, inc, 0]);
         return;
     }
     log([3, m, id, now(), act() + 2 * inc]);
@@ -226,6 +236,7 @@ async fn run_task(m: u64, id: u64, inc: u64, p: Prog, guard: Guard) {
                     des::time::sleep(Duration::from_nanos(d)).await;
                     if SILENT[m as usize].load(SeqCst) {
                         guard.done.set(true);
+                        log([20, m, id, inc, 0]);
                         return;
                     }
                     log([4, m, id, now(), act() + 2 * inc]);
@@ -233,6 +244,7 @@ async fn run_task(m: u64, id: u64, inc: u64, p: Prog, guard: Guard) {
             }
             Act::Panic => {
                 log([11, m, 1 + id, catching(), 0]);
+                log([20, m, id, inc, 1]);
                 guard.done.set(true);
                 panic!("scripted task panic");
             }
@@ -241,6 +253,7 @@ async fn run_task(m: u64, id: u64, inc: u64, p: Prog, guard: Guard) {
         }
     }
     guard.done.set(true);
+    log([20, m, id, inc, 0]);
 }
 
 struct ScriptModule {
@@ -258,9 +271,15 @@ impl Module for ScriptModule {
         log([1, self.m, stage as u64, now(), act()]);
         if stage == 0 {
             for (id, p) in self.cfg.tasks.iter().enumerate() {
-                let guard = Guard { m: self.m, id: id as u64, done: Cell::new(false) };
+                let guard = Guard { m: self.m, id: id as u64, inc: self.inc, done: Cell::new(false) };
                 let h = tokio::spawn(run_task(self.m, id as u64, self.inc, p.clone(), guard));
-                current().try_join(h);
+                let must = (self.cfg.join >> id) & 1;
+                log([21, self.m, id as u64, self.inc, must]);
+                if must == 1 {
+                    current().join(h);
+                } else {
+                    current().try_join(h);
+                }
             }
             if !self.cfg.start.is_empty() {
                 let i = (self.inc as usize).min(self.cfg.start.len() - 1);
@@ -367,9 +386,10 @@ fn simulate(mods: &[ModCfg], inj: &[(u64, u64, u64, u64)]) -> Vec<u64> {
     let mut recs: Vec<[u64; 5]> = out.chunks_exact(5).map(|c| [c[0], c[1], c[2], c[3], c[4]]).collect();
     let mut i = 0;
     while i < recs.len() {
-        if recs[i][0] == 13 {
+        let dropped = |r: &[u64; 5]| r[0] == 13 || (r[0] == 20 && r[4] == 2);
+        if dropped(&recs[i]) {
             let mut j = i;
-            while j < recs.len() && recs[j][0] == 13 {
+            while j < recs.len() && dropped(&recs[j]) {
                 j += 1;
             }
             recs[i..j].sort();
@@ -381,15 +401,25 @@ fn simulate(mods: &[ModCfg], inj: &[(u64, u64, u64, u64)]) -> Vec<u64> {
     out = recs.iter().flatten().copied().collect();
     if let Err(e) = res {
         for err in e.iter() {
-            let (kind, path) = if let Some(p) = err.as_any().downcast_ref::<PanicError>() {
-                (0, p.path.as_str().to_string())
+            let (kind, code, path) = if let Some(p) = err.as_any().downcast_ref::<PanicError>() {
+                (0, 0, p.path.as_str().to_string())
             } else if let Some(j) = err.as_any().downcast_ref::<JoinError>() {
-                (1, j.path.as_str().to_string())
+                let k = format!("{:?}", j.kind);
+                let code = if k.starts_with("Paniced") {
+                    1
+                } else if k.starts_with("NotFinished") {
+                    2
+                } else if k.starts_with("Tokio") {
+                    3
+                } else {
+                    9
+                };
+                (1, code, j.path.as_str().to_string())
             } else {
-                (2, String::new())
+                (2, 9, String::new())
             };
             let m = names.iter().position(|n| *n == path).map(|p| p as u64).unwrap_or(99);
-            out.extend([15, kind, m, 0, 0]);
+            out.extend([15, kind, m, code, 0]);
         }
     }
     drop(refs);
